@@ -148,6 +148,15 @@ class watchdog:
 def check_repo_import():
     """pyformlang must come from the tree under test."""
     import pyformlang
+    # every sub-package and its third-party dependencies are imported here, before any watchdog is armed: an
+    # import interrupted by the watchdog's exception leaves half-initialised modules behind (seen once in 240 soak
+    # runs: "module 'networkx' has no attribute 'exception'" for the rest of that worker's life)
+    import importlib
+    for sub in ("finite_automaton", "regular_expression", "cfg", "cfg.llone_parser", "cfg.recursive_decent_parser",
+                "pda", "pda.transition_function", "fst", "indexed_grammar", "fcfg", "fcfg.feature_structure", "rsa"):
+        importlib.import_module("pyformlang." + sub)
+    import networkx.exception  # noqa: F401
+    import numpy  # noqa: F401
     path = os.path.realpath(pyformlang.__file__)
     root = os.path.realpath(REPO)
     if not path.startswith(root + os.sep):
